@@ -107,10 +107,36 @@ def addrLine (line : String) : String :=
     match asOptStr fds, parsePidSpec pid, asOptStr names, asNat passed, asStr a with
     | some fds, some pid, some names, some passed, some a => render (actenvLine fds pid names passed a)
     | _, _, _, _, _ => "(model-case-error)"
-  | some (.list [.atom "act3", w]) =>
+  | some (.list (.atom "act3" :: w :: rest)) =>
     match parseWorld w with
-    | some w => render (.list [.atom "act3", .list [.atom "reply", strAtom w.svc.vendor],
-        .list [.atom "act", strAtom "1", strAtom "varlink", .atom "t", .atom "t", .atom "t", .atom "t"]])
+    | some w =>
+      -- the caller's descriptor table: 0,1,2 unless closed, nothing from 3 up.  The listener of
+      -- varlink_exec gets the lowest free descriptor; `Command::spawn` then creates its close-on-exec
+      -- status channel on the next two free descriptors (the child closes the read end before
+      -- `pre_exec`, the parent's `spawn` returns when every copy of the write end is closed); then the
+      -- spawn recipe of Model.Addr.  The call works iff the child's descriptor 3 is the listener and
+      -- no copy of the status channel's write end survives the exec.
+      let closed : List Nat := match rest with
+        | [c] => ((asStr c).getD "").splitOn "," |>.filterMap String.toNat?
+        | _ => []
+      let stdio : FdTable := ([0, 1, 2].filter fun fd => !closed.contains fd).map fun fd => (fd, ⟨100 + fd, false⟩)
+      let free (t : FdTable) : Nat := ((List.range 8).find? fun fd => (fdGet fd t).isNone).getD 8
+      let lfd := free stdio
+      let t1 : FdTable := stdio ++ [(lfd, ⟨7, true⟩)]
+      let inFd := free t1
+      let t2 : FdTable := t1 ++ [(inFd, ⟨200, true⟩)]
+      let outFd := free t2
+      let t3 : FdTable := fdRemove inFd (t2 ++ [(outFd, ⟨201, true⟩)])
+      let ok : Bool := match runRecipe (execRecipe [] [] lfd) [] t3 modelPid with
+        | some c => decide (fdGet 3 c.fds = some { obj := 7, cloexec := false }) && !c.fds.any (fun e => e.2.obj == 201)
+        | none => false
+      if ok then
+        render (.list [.atom "act3", .list [.atom "reply", strAtom w.svc.vendor],
+          .list [.atom "act", strAtom "1", strAtom "varlink", .atom "t", .atom "t", .atom "t", .atom "t"]])
+      else
+        -- the service never gets the socket (or `spawn` only returns when the service has given up):
+        -- the connect that follows is refused
+        render (.list [.atom "act3", .list [.atom "fail", strAtom "Io(ConnectionRefused)"], .list [.atom "noact"]])
     | none => "(model-case-error)"
   | some (.list [.atom "xport", w, .list (.atom "reads" :: cs), dec]) =>
     match parseWorld w, cs.mapM asBytes, parseDec dec with
@@ -174,11 +200,17 @@ def addrPred (prop caseLine obsLine : String) : String :=
       match asOptStr fds, parsePidSpec pid, asOptStr names, asStr a with
       | some fds, some pid, some names, some a => verdictStr (AddrPred.P_actenv fds pid names a (parseLRes r))
       | _, _, _, _ => "fail unparsable-case"
-    | .list [.atom "act3", _], .list [.atom "act3", .list (.atom "reply" :: _), act] =>
+    | .list (.atom "act3" :: _ :: rest), .list [.atom "act3", .list (.atom "reply" :: _), act] =>
       -- six identical runs stand for "the call was answered"; the activation facts are the point
       let runs := ["a", "b", "c", "d", "e", "f"].map fun n => (n, AddrPred.XRes.out [])
-      verdictStr (AddrPred.P_xport runs (parseActFacts act))
-    | .list [.atom "act3", _], .list (.atom "act3" :: _) => "fail activation-from-descriptor-3-failed"
+      let where_ := match rest with | [c] => (asStr c).getD "" | _ => ""
+      match AddrPred.P_xport runs (parseActFacts act) with
+      | none => "ok"
+      | some r => "fail " ++ r ++ (if where_ == "" then "" else "-with-closed-" ++ where_)
+    | .list (.atom "act3" :: _ :: rest), .list (.atom "act3" :: _) =>
+      match rest with
+      | [c] => "fail with-activate-fails-with-closed-" ++ (asStr c).getD ""
+      | _ => "fail activation-from-descriptor-3-failed"
     | .list (.atom "xport" :: _), .list (.atom "xport" :: rest) =>
       let runs := rest.filterMap fun e => match e with
         | Sx.list [Sx.atom n, r] => if n == "act" || n == "noact" then none else some (n, parseXRes r)
